@@ -219,6 +219,10 @@ func (m *Models) Muts() *MutModel {
 					if b, ok := x.Val.(*ssa.BinOp); ok && b.Op == token.SUB {
 						s.Shrinks = true
 						s.What = "decrement storeList.count"
+					} else if b, ok := x.Val.(*ssa.BinOp); !ok || b.Op != token.ADD {
+						// any other assignment (count = 0, count = n) can make the list empty as well
+						s.Shrinks = true
+						s.What = "assign storeList.count"
 					}
 				}
 				mm.sites[fn] = append(mm.sites[fn], s)
